@@ -51,14 +51,14 @@ STATE_NOTE = ('trusted: Coq kernel; hand-written model of state.rs / flows.rs (C
 CLAIMED['C05'] = dict(
     text='Coq theorems for every sequence of aggregator updates of a hop: counts, total time, best/worst/last equal the direct recomputation from the list of round-trip times; '
          'recv+failed <= sent, address counts sum to recv, fwd+bwd loss <= unanswered, history <= sample limit, best*n <= total <= worst*n; running mean = arithmetic mean, '
-         'Welford accumulator = sum of squared deviations, average jitter = mean of successive differences (exact rationals). Oracle: independent two-pass recomputation in Rust.',
-    note=STATE_NOTE + ' jinta (RFC 3550 recurrence) and the forward/backward loss classification are compared by correspondence and oracle only.',
+         'Welford accumulator = sum of squared deviations, average jitter = mean of successive differences (exact rationals). Refinement (c05_recomputation): the hop record after ANY list of updates equals, field by field, a recomputation from that list - sent / failed / forward- / backward-lost counts, the bounded newest-first sample history (firstn max_samples of the reversed durations), jitter, max jitter, interarrival jitter, last-probe details, ICMP type / TOS / extensions of the last completed probe, NAT status, per-address counts (unique keys); derived figures (c05_derived): loss percentages within 0..100, best <= average <= worst, variance = sample variance. Oracle: independent two-pass recomputation in Rust.',
+    note=STATE_NOTE + ' The forward/backward loss CLASSIFICATION of an unanswered probe (which flags update_for_probe passes) is compared by correspondence and oracle only; the derived figures are Coq definitions (Core/State.v) printed by the driver, the square root of stddev_ms is outside the model.',
     technique='Coq proof (invariant over hop updates; field/ring over Q for the running statistics) + differential testing + independent recomputation oracle')
 CLAIMED['C10'] = dict(
     text='Coq theorems for every history of published rounds of the shape the strategy produces: applying rounds never faults, highest = max path length, lowest = least probed ttl, '
          'the hop list is the gap-free ascending window lowest..highest (empty when nothing was probed or nothing answered), probed hops carry their own ttl, the round marker is the latest path length, '
-         'querying hops / target hop never faults; strategy side: the published path length is 0 or within first_ttl..254.',
-    note=STATE_NOTE + ' That the target distance equals the true distance on a stable path is checked by the simulator oracle, not proved; the link "every published round contains a probe with ttl <= largest_ttl" is exercised, not proved.',
+         'querying hops / target hop never faults; strategy side: the published path length is 0 or within first_ttl..254; LINK (c10_strategy_rounds_wf, c10_end_to_end): every round the strategy model publishes, for every accepted configuration and every environment behaviour incl. TCP re-issues, has that shape, so the chain strategy -> aggregator -> hop list never faults.',
+    note=STATE_NOTE + ' That the target distance equals the true distance on a stable path is checked by the simulator oracle, not proved.',
     technique='Coq proof (window invariant by induction over rounds) + differential testing + simulator ground-truth oracle')
 CLAIMED['C15'] = dict(
     text='Coq theorems: a matching check selects an entry that covers the round flow (after merge) and only extends it; ids are dense from 1 in registration order; at most one flow is added per round; '
